@@ -29,7 +29,7 @@ Rep3 == { << >>, << A, COMMA, SEMI, SP >>, << QUOTE, BSL, A, BSL >> }
 \* attributes x 5 choices: 31 + 31^2 = 1 k x 2 nl x 49 faults = 97 k
 \* value4: one link, ONE attribute, every value up to length 4 (C16's exhaustive bound): 4 681 values
 \* x 2 kinds x 2 targets x 2 nl = 37 k states
-Values1 == IF Mode = "keys" THEN { << A >> }
+Values1 == IF Mode = "keys" THEN { << A >>, << >> }
            ELSE IF Mode = "value" THEN Strs(2)
            ELSE IF Mode = "value4" THEN Strs(4)
            ELSE IF Mode = "value3" THEN Strs(3)
@@ -52,7 +52,8 @@ Str2Codes(str) == CASE str = "rel" -> << 114, 101, 108 >> [] str = "anchor" -> <
                     [] str = "et" -> << 101, 116 >> [] str = "k" -> << 107 >> [] str = "REL" -> << 82, 69, 76 >>
 NamedKeys == { Str2Codes(x) : x \in { "rel", "anchor", "hreflang", "media", "title", "title*", "type", "rt", "if", "sz", "v", "ct",
                                       "obs", "ep", "lt", "d", "base", "gp", "et", "k", "REL" } }
-Keys == IF Mode = "keys" THEN NamedKeys ELSE { << 107 >> }
+\* (and the empty key: the writer takes any string)
+Keys == IF Mode = "keys" THEN NamedKeys \cup { << >> } ELSE { << 107 >> }
 Kinds == IF Mode \in {"value", "value3", "value4"} THEN { "attr", "quoted" } ELSE { "attr" }
 U32s == IF Mode \in {"value", "value3"} THEN { << 48 >>, << 52, 48 >> } ELSE IF Mode = "keys" THEN {} ELSE { << 52, 48 >> }
 MaxLinks == IF Mode \in {"value", "value3", "value4", "keys"} THEN 1 ELSE IF Mode = "struct" THEN 3 ELSE 2
